@@ -25,6 +25,8 @@ def import_rules(ctx, r, prop, only=None, prefix=True, select=None):
             c = f"{prop}.{rid}:{inst['construct']}" if prefix else inst["construct"]
             if inst["verdict"] == "VIOLATION":
                 r.violation(c, inst["detail"], inst["where"])
+                if inst.get("from_witness"):
+                    r.instances[-1]["from_witness"] = True
                 n += 1
             elif inst["verdict"] == "ok":
                 r.ok(c, inst["detail"], inst["where"])
